@@ -72,6 +72,8 @@ ASSUMPTIONS = ["Ed25519 verification in the key vault is trusted (it is also the
                "request_attestation_advertisement(P, ..) call; an empty MissingResponsePayload hands out nothing",
                "liveness is not part of the property: only the fault-free single-motif cases demand that the honest "
                "attestation happens",
+               "RequestMissing datagrams beyond 16 per (sender, destination) between two user ops are lost by the network "
+               "(the request/response ping-pong for a registered but undisclosed attribute never ends by itself)",
                "messages crafted by a dishonest user through its own overlay are not subject to oracles (1) and (3)"]
 REACH = ["honest_attestation", "wrong_subject_refused", "wrong_subject_with_own_registration_refused",
          "wrong_name_refused", "wrong_metadata_refused", "extra_metadata_allowed_attested",
@@ -87,6 +89,7 @@ NAMES = ("n0", "n1", "n2")
 MDS = (None, None, {}, {"a": "b"}, {"a": "c"}, {"a": "b", "x": "y"})
 SIG = 64                    # curve25519 signature length
 TOK = 64 + SIG
+REQ_BUDGET = 16             # RequestMissing datagrams per (sender, destination) between two user ops (see storm_filter)
 MUST_HAPPEN = ("honest_attestation", "long_chain_missing_tokens_served", "just_below_300s_attested",
                "extra_metadata_allowed_attested")
 
@@ -442,7 +445,7 @@ def execute(case: dict) -> dict:  # noqa: C901, PLR0915
     captured_disc: dict = {}
     captured_att: list = []
     db_rows: dict = {n: set() for n in NODES}
-    st = {"crafting": False, "pending": None, "deferred": [], "prefix": None, "pad": 0}
+    st = {"crafting": False, "pending": None, "deferred": [], "prefix": None, "pad": 0, "budget": {}}
     decisions: list = []
     payload_of = {1: DisclosePayload, 2: AttestPayload, 3: RequestMissingPayload, 4: MissingResponsePayload}
 
@@ -633,6 +636,11 @@ def execute(case: dict) -> dict:  # noqa: C901, PLR0915
             m.foreign_first.add((node, mdh))
         m.attested[node][mdh] = times + 1
         decisions.append(f"att:{verdict}")
+        if os.environ.get("C17_DEBUG"):
+            import traceback
+            traceback.print_stack(limit=12)
+            print("ATT", pkt.id, node, who, mdh.hex()[:8], verdict, times, "cause", pkt.cause, cause and (cause["msg"], cause["replay"], cause["bad"]),
+                  round(now - 1_700_000_000.0, 4), sorted(read_rows(node))[-1][3].hex()[:8] if read_rows(node) else None)
         if verdict != "ok":
             if verdict == "no_metadata" and any(mdh in d for (n2, _k), d in m.mds.items() if n2 == node):
                 verdict = "other_subject_key_metadata"
@@ -703,8 +711,8 @@ def execute(case: dict) -> dict:  # noqa: C901, PLR0915
 
     def on_send(pkt, fate) -> None:  # noqa: ANN001
         node = pkt.src_node
-        if node is None or pkt.injected:
-            return
+        if node is None or pkt.injected or pkt.dup or fate == "dup":
+            return          # a copy made by the network is not something the node produced
         rec = parse(pkt.data)
         if rec is None or rec["key"] != key_of.get(node):
             return
@@ -755,6 +763,22 @@ def execute(case: dict) -> dict:  # noqa: C901, PLR0915
             if not sig_ok(rec["key"], att[:32], att[32:]):
                 c.probe("third_party_attestation_refused")
                 decisions.append("row:refused")
+
+    def storm_filter(pkt):  # noqa: ANN001, ANN202
+        """
+        The network loses RequestMissing datagrams beyond REQ_BUDGET per (sender, destination) between two user ops.
+        An authority answers every MissingResponse with one RequestMissing per registered-but-still-unknown attribute
+        and the subject answers every request (even with nothing): an endless ping-pong, doubling per round trip when
+        two attributes are missing.  Losing datagrams is legal network behaviour, so no oracle is affected.
+        """
+        if pkt.src_node is None or len(pkt.data) < 23 or pkt.data[22] != 3 or pkt.data[:22] != st["prefix"]:
+            return None
+        k = (pkt.src_node, tuple(pkt.dst))
+        n = st["budget"][k] = st["budget"].get(k, 0) + 1
+        if n > REQ_BUDGET:
+            c.probe("request_missing_storm_cut")
+            return "drop"
+        return None
 
     def on_step(h) -> None:  # noqa: ANN001
         pend = st["pending"]
@@ -934,9 +958,11 @@ def execute(case: dict) -> dict:  # noqa: C901, PLR0915
         await build()
         net.on_deliver.append(on_deliver)
         net.on_send.append(on_send)
+        net.filters.append(storm_filter)
         c.loop.on_step = on_step
         for i, op in enumerate(case["ops"]):
             world.trace.event("op", op.get("node"), op["op"], i)
+            st["budget"] = {}
             await run_op(op)
         await asyncio.sleep(float(case.get("drain", 4.0)))
         c.loop.on_step = None
